@@ -101,6 +101,14 @@ Fixpoint should_sample (s : sampler) (psc : spanctx) (t : bytes) : sresult :=
       {| dec := d; rts := match ts with Some x => x | None => tstate psc end; path := [] |}
   end.
 
+(** Compositions of the SDK's own samplers (no user sampler anywhere). *)
+Fixpoint stock (s : sampler) : bool :=
+  match s with
+  | SAlways | SNever | SRatio _ => true
+  | SParent a b c d e => stock a && stock b && stock c && stock d && stock e
+  | SCustom _ _ => false
+  end.
+
 (** ParentBased(root) with the default options. *)
 Definition parent_based (root : sampler) : sampler := SParent root SAlways SNever SAlways SNever.
 
